@@ -83,6 +83,10 @@ PLACE_DIRS = {"root": "", "sub": "pkg", "sub/deep": "pkg/inner", "hidden": ".hid
               "hidden/sub": ".hidden/pkg", "sub/pycache": "pkg/__pycache__"}
 V1_SOURCE = "import os\nfrom district42 import schema, optional as o\n\nx = schema.int\n"
 PLAIN_SOURCE = "import os\nfrom os import path\n\nx = 1\n"
+ACCENTED = 'import os\nfrom district42 import schema\n\nAUTHOR = "Ren\u00e9"  # caf\u00e9\nx = schema.int\n'
+FILE_BYTES = {"v1import": V1_SOURCE.encode("utf-8"), "plain": PLAIN_SOURCE.encode("utf-8"),
+              "v1import_utf8": ACCENTED.encode("utf-8"),
+              "v1import_latin1": ("# -*- coding: latin-1 -*-\n" + ACCENTED).encode("latin-1")}
 
 
 def walk_cases(chk, mapping):
@@ -110,10 +114,10 @@ def walk_cases(chk, mapping):
             d = os.path.join(root, PLACE_DIRS[f["place"]])
             os.makedirs(d, exist_ok=True)
             name = "m%d.%s" % (i, "py" if f["kind"] == "py" else "txt")
-            text = V1_SOURCE if f["content"] == "v1import" else PLAIN_SOURCE
-            with open(os.path.join(d, name), "w") as fh:
-                fh.write(text)
-            files.append((f, os.path.join(d, name), text))
+            data = FILE_BYTES[f["content"]]
+            with open(os.path.join(d, name), "wb") as fh:
+                fh.write(data)
+            files.append((f, os.path.join(d, name), data))
         os.makedirs(root, exist_ok=True)
         exc = ""
         try:
@@ -131,11 +135,15 @@ def walk_cases(chk, mapping):
         except BaseException as e:  # noqa
             exc = type(e).__name__
         recs = []
-        for f, path, text in files:
-            now = open(path).read()
-            want = rewrite_imports(text, mapping)
+        for f, path, data in files:
+            now = open(path, "rb").read()
+            try:
+                want = rewrite_imports(data.decode("utf-8"), mapping)
+                want = data if want is None else want.encode("utf-8")
+            except UnicodeDecodeError:
+                want = data
             recs.append({"place": f["place"], "kind": f["kind"], "content": f["content"], "n": f["n"],
-                         "changed": now != text, "rewrite_ok": now == (want if want is not None else text)})
+                         "changed": now != data, "rewrite_ok": now == want})
         events.append({"id": n, "exc": exc, "files": recs})
         shutil.rmtree(root, ignore_errors=True)
     chk.require(n >= 100, "too few file trees (%d)" % n)
